@@ -268,6 +268,8 @@ CHECKS = {
             {"check": "C12.array.files", "mode": "enum", "what": "vnadata save / load", "quick": B(40, 25, 1), "thorough": B(2000, 250, 1)},
             {"check": "C12.cal", "mode": "enum", "what": "parameters, sessions, solve, add_calibration, apply", "quick": B(40, 30, 1), "thorough": B(2000, 300, 1)},
             {"check": "C12.cal.store", "mode": "enum", "what": "vnacal save / load incl. properties", "quick": B(20, 30, 1), "thorough": B(1000, 300, 1)},
+            {"check": "C12.chaos", "mode": "enum", "what": "measurement-error model, tolerances, correlated / unknown parameters, rectangular and zero-frequency calibrations, "
+                                                           "invalid-argument calls (chaos scripts without vnacal_t replacement)", "quick": B(40, 25, 1), "thorough": B(2500, 300, 1)},
         ],
     },
     "C14": {
